@@ -10,6 +10,7 @@ void set_provider(int p);
 // Is (alg, key) something the provider's libjwt path is able to do at all? Probed by calling
 // GnuTLS directly at start-up, never by asking libjwt.
 bool provider_supports(int prov, const AlgInfo &a, const KeyTruth &k);
+void provider_probe();
 
 // key/alg admission per the documented setkey table
 // key_alg: JWT_ALG_NONE when the key has no alg attribute, JWT_ALG_INVAL for an unknown string
@@ -46,5 +47,7 @@ struct CbCtx {
 	bool capture = false;
 	std::string hdr_json, claims_json;
 	int hdr_rc = -1, claims_rc = -1;
+	std::vector<std::string> typed_mismatch; // typed getters vs. the whole-object JSON read
+	int typed_reads = 0;
 };
 extern "C" int world_cb(jwt_t *jwt, jwt_config_t *config);
